@@ -45,9 +45,13 @@ _SPECS = [
     ("timed_transfer", TESTS / "timed_test_transfer_framework.xlsx", TESTS / "timed_test_transfer_databook.xlsx", None, None),
     ("timed_transfer_2", TESTS / "timed_test_transfer_framework.xlsx", TESTS / "timed_test_transfer_databook_2.xlsx", None, None),
     ("timed_transfer_3", TESTS / "timed_test_transfer_framework.xlsx", TESTS / "timed_test_transfer_databook_3.xlsx", None, None),
-    ("timed_eligibility", TESTS / "timed_test_eligibility_framework.xlsx", TESTS / "timed_test_databook.xlsx", None, None),
-    ("timed_indirect", TESTS / "timed_test_indirect_framework.xlsx", TESTS / "timed_test_databook.xlsx", None, None),
-    ("timed_indirect2", TESTS / "timed_test_indirect2_framework.xlsx", TESTS / "timed_test_databook.xlsx", None, None),
+    # databook "NEW": built by ProjectData.new() from the framework's default values (as the repository's own tests do)
+    ("timed_eligibility", TESTS / "timed_test_eligibility_framework.xlsx", "NEW", None, None),
+    ("timed_indirect", TESTS / "timed_test_indirect_framework.xlsx", "NEW", None, None),
+    ("timed_indirect2", TESTS / "timed_test_indirect2_framework.xlsx", "NEW", None, None),
+    ("derivative", TESTS / "framework_derivative_test.xlsx", "NEW", None, None),
+    ("par_min_max", TESTS / "framework_par_min_max_test.xlsx", TESTS / "par_min_max_databook.xlsx", None, None),
+    ("no_compartment", TESTS / "test_no_compartment_framework.xlsx", TESTS / "test_no_compartment_databook.xlsx", TESTS / "test_no_compartment_progbook.xlsx", None),
     ("timed_tb", TESTS / "timed_tb_framework.xlsx", TESTS / "timed_tb_databook.xlsx", None, None),
     ("tb", LIB / "tb_framework.xlsx", LIB / "tb_databook.xlsx", LIB / "tb_progbook.xlsx", 0.5),
 ]
@@ -100,9 +104,15 @@ def load(names=None, include_heavy=True, quiet=True):
         _CORPUS = {}
         for name, fwp, dbp, pbp, dt in _SPECS:
             try:
-                if not (Path(fwp).exists() and Path(dbp).exists()):
-                    raise FileNotFoundError(str(fwp if not Path(fwp).exists() else dbp))
-                P = at.Project(name=name, framework=str(fwp), databook=str(dbp), do_run=False)
+                if dbp == "NEW":
+                    F = at.ProjectFramework(str(fwp))
+                    D = at.ProjectData.new(framework=F, tvec=np.array([2018.0]), pops=1, transfers=0)
+                    P = at.Project(name=name, framework=F, databook=D.to_spreadsheet(), do_run=False)
+                    P.settings.update_time_vector(start=2018, end=2023, dt=0.25)
+                else:
+                    if not (Path(fwp).exists() and Path(dbp).exists()):
+                        raise FileNotFoundError(str(fwp if not Path(fwp).exists() else dbp))
+                    P = at.Project(name=name, framework=str(fwp), databook=str(dbp), do_run=False)
                 if dt:
                     P.settings.sim_dt = dt
                 if pbp is not None and Path(pbp).exists():
